@@ -246,7 +246,7 @@ def _main(prop_id, args, seed, t0):
         replay_paths.append(p)
     evidence.write(mod, prop_id, tier, seed, main_rec, wall, len(violations), enabled,
                    corpus_n=corpus_n, shards=shards_used, exhaustive_domains=exhaustive_domains,
-                   budget_exhausted=budget_exhausted)
+                   budget_exhausted=budget_exhausted or main_rec.budget_exhausted)
     for v, p in zip(violations, replay_paths):
         rel = os.path.relpath(p, env.VERIF) if p.startswith(env.VERIF + os.sep) else p
         print(f"VIOLATION property={prop_id} replay={rel}")
